@@ -97,6 +97,14 @@ static std::string listing(const sqf::runtime::instruction_set& set)
     }
     return o;
 }
+// files of the instructions, numbered in order of first appearance in the dump
+static std::vector<std::string> g_files;
+static size_t file_index(const std::string& physical)
+{
+    for (size_t i = 0; i < g_files.size(); i++) if (g_files[i] == physical) return i;
+    g_files.push_back(physical);
+    return g_files.size() - 1;
+}
 static std::string diagtable(const sqf::runtime::instruction_set& set)
 {
     std::string o;
@@ -106,7 +114,7 @@ static std::string diagtable(const sqf::runtime::instruction_set& set)
         if (!first) o += ",";
         first = false;
         auto d = in->diag_info();
-        o += std::to_string(d.line) + "." + std::to_string(d.column) + "." + std::to_string(d.file_offset);
+        o += std::to_string(d.line) + "." + std::to_string(d.column) + "." + std::to_string(d.file_offset) + "." + std::to_string(file_index(d.path.physical));
         if (auto p = dynamic_cast<const sqf::opcodes::push*>(in.get()))
             if (p->value().is<sqf::runtime::t_code>())
                 o += "[" + diagtable(p->value().data<sqf::types::d_code, sqf::runtime::instruction_set>()) + "]";
@@ -114,12 +122,57 @@ static std::string diagtable(const sqf::runtime::instruction_set& set)
     return o;
 }
 
+// A script field is "<hex text>" or "<hex main text>;<hex name>=<hex content>;..." : with files, they are written to a scratch
+// directory mapped as /v, the main text (which includes them as "/v/<name>") is preprocessed as /v/main.sqf and then parsed,
+// so that the instructions carry the path of the file they come from.
+static std::string g_scratch;
+static std::optional<sqf::runtime::instruction_set> parse_script(VM& vm, const std::string& field)
+{
+    auto parts = split(field, ';');
+    if (parts.size() == 1)
+        return vm.rt->parser_sqf().parse(*vm.rt, unhex(parts[0]), sqf::runtime::fileio::pathinfo(std::string("verif.sqf"), std::string()));
+    if (g_scratch.empty()) return {};      // made by main() before the fork, removed when the harness ends
+    auto put = [&](const std::string& name, const std::string& content) {
+        FILE* fp = fopen((g_scratch + "/" + name).c_str(), "wb");
+        if (fp) { fwrite(content.data(), 1, content.size(), fp); fclose(fp); }
+    };
+    std::string maintext = unhex(parts[0]);
+    put("main.sqf", maintext);
+    for (size_t k = 1; k < parts.size(); k++)
+    {
+        auto e = parts[k].find('=');
+        if (e == std::string::npos) return {};
+        put(unhex(parts[k].substr(0, e)), unhex(parts[k].substr(e + 1)));
+    }
+    vm.rt->fileio().add_mapping(g_scratch, "/v");
+    sqf::runtime::fileio::pathinfo pi{ std::string(g_scratch + "/main.sqf"), std::string("/v/main.sqf") };
+    auto pp = vm.rt->parser_preprocessor().preprocess(*vm.rt, maintext, pi);
+    if (!pp.has_value()) return {};
+    return vm.rt->parser_sqf().parse(*vm.rt, *pp, pi);
+}
+static bool load_script(VM& vm, const std::string& field)
+{
+    auto set = parse_script(vm, field);
+    if (!set.has_value()) return false;
+    auto ctx = vm.rt->context_create().lock();
+    sqf::runtime::frame f(vm.rt->default_value_scope(), set.value());
+    ctx->push_frame(f);
+    return true;
+}
+static void drop_scratch()
+{
+    if (g_scratch.empty()) return;
+    std::string cmd = "rm -rf '" + g_scratch + "'";
+    if (system(cmd.c_str()) != 0) {}
+    g_scratch.clear();
+}
+
 // brings a fresh VM into the base state; returns the observation of that state ("BASEFAIL" if the script does not parse)
-static std::string to_base(VM& vm, char base, const std::string& text)
+static std::string to_base(VM& vm, char base, const std::string& field)
 {
     if (base != 'E')
     {
-        if (!vm.load(text)) return "PARSEFAIL";
+        if (!load_script(vm, field)) return "PARSEFAIL";
     }
     int r = 0;
     if (base == 'F' || base == 'X') r = vm.start();
@@ -208,11 +261,18 @@ int main(int argc, char** argv)
     {
         auto f = split(line);
         std::string out;
+        if (line.find(';') != std::string::npos && g_scratch.empty())
+        {
+            std::string tmpl = "/tmp/verif_ctl_XXXXXX";
+            char* d = mkdtemp(tmpl.data());
+            if (d) g_scratch = d;
+        }
         if (mode == "lines" && f.size() == 1)
         {
             out = forked([&]() -> std::string {
                 VM vm(0, true);
-                auto set = vm.rt->parser_sqf().parse(*vm.rt, unhex(f[0]), sqf::runtime::fileio::pathinfo(std::string("verif.sqf"), std::string()));
+                g_files.clear();
+                auto set = parse_script(vm, f[0]);
                 if (!set.has_value()) return "PARSEFAIL";
                 return listing(*set) + "\t" + diagtable(*set);
             }, 20000, CTL_MEM_MB);
@@ -221,7 +281,7 @@ int main(int argc, char** argv)
         {
             out = forked([&]() -> std::string {
                 VM vm(0, true);
-                std::string o = to_base(vm, f[0][0], unhex(f[1]));
+                std::string o = to_base(vm, f[0][0], f[1]);
                 if (o == "PARSEFAIL") return o;
                 tree(vm, "", (size_t)std::stoul(f[2]), f[3], o);
                 return o;
@@ -231,7 +291,7 @@ int main(int argc, char** argv)
         {
             out = forked([&]() -> std::string {
                 VM vm(0, true);
-                std::string o = to_base(vm, f[0][0], unhex(f[1]));
+                std::string o = to_base(vm, f[0][0], f[1]);
                 if (o == "PARSEFAIL") return o;
                 follow(vm, f[2], 0, o);
                 return o;
@@ -303,5 +363,6 @@ int main(int argc, char** argv)
         for (auto& ch : out) if (ch == '\n') ch = ' ';
         std::cout << out << "\n";
     }
+    drop_scratch();
     return 0;
 }
